@@ -36,12 +36,12 @@ def entries {β} (indices : List Int) (values : List β) : List (List β) :=
   List.zipWith (fun a b => (values.drop a.toNat).take (b.toNat - a.toNat)) indices indices.tail
 
 /-- offsets of a list of entries starting at `base`: `[base, base+|e0|, base+|e0|+|e1|, …]` -/
-def offsetsFrom {β} (base : Int) : List (List β) → List Int
+def offsetsFromI {β} (base : Int) : List (List β) → List Int
   | [] => [base]
-  | e :: es => base :: offsetsFrom (base + e.length) es
+  | e :: es => base :: offsetsFromI (base + e.length) es
 
 /-- the stored form of a list of entries -/
-def encodeIndexed {β} (es : List (List β)) : List Int × List β := (offsetsFrom 0 es, es.flatten)
+def encodeIndexed {β} (es : List (List β)) : List Int × List β := (offsetsFromI 0 es, es.flatten)
 
 /-- a stored indexed field is well formed: offsets start at 0, are non-decreasing and end at the number of bytes
     (what every ExeTera writer produces, C01) -/
